@@ -636,6 +636,44 @@ def apply_model(sym, n, f, vals, mut_idx, st):
         return V(("fmtargs", (("txt", vals[0][2]),) if vals[0][0] == "lit" else (("dyn", vals[0]),), ()))
     if p == "std::fmt::format" and len(vals) == 1:
         return V(("format", vals[0]))
+    # other spellings of "these strings one after the other": `[a, b].concat()`, `a.to_owned() + b` - the text `format!("{a}{b}")` builds
+
+    def str_parts(v_):
+        if v_[0] == "format" and v_[1][0] == "fmtargs":
+            return list(v_[1][1]), list(v_[1][2])
+        if v_[0] == "lit" and v_[1] == "str":
+            return ([("txt", v_[2])] if v_[2] else []), []
+        if v_[0] == "call" and v_[1] in ("std::string::String::new",) and not v_[2]:
+            return [], []
+        return [("hole",)], [("display", v_)]
+
+    def mk_format(vs_):
+        pcs_, args_ = [], []
+        for v_ in vs_:
+            a_, b_ = str_parts(v_)
+            pcs_ += a_
+            args_ += b_
+        merged_ = []
+        for pc_ in pcs_:
+            if pc_[0] == "txt" and merged_ and merged_[-1][0] == "txt":
+                merged_[-1] = ("txt", merged_[-1][1] + pc_[1])
+            else:
+                merged_.append(pc_)
+        return ("format", ("fmtargs", tuple(merged_), tuple(args_)))
+    if p == "std::slice::concat" and len(vals) == 1 and vals[0][0] == "array" and n.get("args") and (n["args"][0].get("ty") or "") in ("&[&str]", "&[&str; %d]" % len(vals[0][1])):
+        return V(mk_format(list(vals[0][1])))
+    if p == "std::ops::Add::add" and len(vals) == 2 and n.get("args") and (n["args"][0].get("ty") or "") == "std::string::String" \
+            and (n["args"][1].get("ty") or "") == "&str":
+        return V(mk_format([vals[0], vals[1]]))
+    # `f.write_str(x)` writes what `write!(f, "{}", x)` writes
+    if p in ("std::fmt::Formatter::write_str", "std::fmt::Write::write_str") and len(vals) == 2 and mut_idx == [0]:
+        fa_ = mk_format([vals[1]])[1]
+        s1 = st.copy()
+        s1.n += 1
+        nm_ = p[:-len("write_str")] + "write_fmt"
+        s1.effects = s1.effects + (("call", nm_, (vals[0], fa_), s1.n),)
+        res_ = ("mcall", nm_, (vals[0], fa_), s1.n)
+        return [(s1, (VAL, res_))]
     # std::mem::replace(&mut place, v) / take(&mut place): the old value is returned, the place now holds v / Default
     if p in ("std::mem::replace", "std::mem::take") and vals and vals[0][0] == "place" and n.get("args"):
         pl = sym.place_of(n["args"][0], st)
